@@ -49,6 +49,7 @@ class Builder:
         self.of, self.nx = of, nx
         self.EthAddr, self.IPAddr, self.IPAddr6 = addresses.EthAddr, addresses.IPAddr, addresses.IPAddr6
         self.refs = {}
+        self.alt = False
 
     def cls(self, name):
         c = getattr(self.of, name, None)
@@ -63,6 +64,26 @@ class Builder:
         if issubclass(c, nx._nxm_ether): return self.EthAddr(bytes.fromhex(v))
         if issubclass(c, nx._nxm_raw): return bytes.fromhex(v)
         return v
+
+    def kwargs(self, s):
+        """constructor / attribute values of a spec.  Integers above 256 are made at run time (`int(str(v))`) so that they
+        are never the same object as a module constant of the library (`x is OFPP_CONTROLLER` must not pass by accident);
+        with `self.alt` the alternative calling conventions the library documents are used: Ethernet addresses as 6 raw
+        bytes, action lists as tuples."""
+        kw = {}
+        for k, v in s.get("kw", {}).items():
+            if isinstance(v, (dict, list)) and (isinstance(v, dict) or (v and isinstance(v[0], dict))):
+                v = self.build(v)
+                if self.alt and k == "actions" and isinstance(v, list): v = tuple(v)
+            elif k in ("hw_addr", "dl_addr", "dl_src", "dl_dst") and isinstance(v, str):
+                v = bytes.fromhex(v) if self.alt else self.EthAddr(bytes.fromhex(v))
+            elif k == "nw_addr": v = self.IPAddr(bytes.fromhex(v))
+            elif k in ("nw_src", "nw_dst") and isinstance(v, list): v = (self.IPAddr(bytes.fromhex(v[0])), v[1])
+            elif k in ("data", "body") and isinstance(v, str): v = bytes.fromhex(v)
+            elif isinstance(v, int) and not isinstance(v, bool) and v > 256: v = int(str(v))
+            elif isinstance(v, list): v = list(v)              # never hand the spec's own (empty) list to the library
+            kw[k] = v
+        return kw
 
     def build(self, s):
         if isinstance(s, list): return [self.build(x) for x in s]
@@ -83,14 +104,7 @@ class Builder:
         if "bytes" in s: return bytes.fromhex(s["bytes"])
         if "cls" not in s: return {k: self.build(v) for k, v in s.items()}
         c = self.cls(s["cls"])
-        kw = {}
-        for k, v in s.get("kw", {}).items():
-            if isinstance(v, (dict, list)) and (isinstance(v, dict) or (v and isinstance(v[0], dict))): v = self.build(v)
-            elif k in ("hw_addr", "dl_addr", "dl_src", "dl_dst") and isinstance(v, str): v = self.EthAddr(bytes.fromhex(v))
-            elif k == "nw_addr": v = self.IPAddr(bytes.fromhex(v))
-            elif k in ("nw_src", "nw_dst") and isinstance(v, list): v = (self.IPAddr(bytes.fromhex(v[0])), v[1])
-            elif k in ("data", "body") and isinstance(v, str): v = bytes.fromhex(v)
-            kw[k] = v
+        kw = self.kwargs(s)
         if "factory" in s:
             o = getattr(c, s["factory"])(**kw)
         elif "args" in s:
@@ -343,6 +357,28 @@ def nx_match_of_length(rng, total):
     return {"nx_match": [g_nxm(rng, n, masked=m, canonical=True) for n, m in pick]}
 
 
+def perturb(rng, spec):
+    """another value of the same class and shape: integers, payloads, names and list contents changed"""
+    s = copy.deepcopy(spec)
+    kw = s.get("kw", {})
+    for k, v in list(kw.items()):
+        if k == "type" and s.get("cls") != "ofp_error": continue
+        if isinstance(v, bool) or v is None: continue
+        if isinstance(v, int): kw[k] = rng.choice([0, v ^ 1, v // 2, v])
+        elif isinstance(v, str) and k in ("data", "body"): kw[k] = v[:-2] if (v and rng.random() < 0.5) else v + "5a"
+        elif isinstance(v, str) and k in ("name", "mfr_desc", "hw_desc", "sw_desc", "serial_num", "dp_desc"): kw[k] = v[:-1] if v else "q"
+        elif isinstance(v, dict) and "cls" in v and v["cls"] != "ofp_match": kw[k] = perturb(rng, v)
+        elif isinstance(v, list) and v and isinstance(v[0], dict) and "cls" in v[0]:
+            r = rng.random()
+            if r < 0.4: kw[k] = v + [copy.deepcopy(v[0])]
+            elif r < 0.6: kw[k] = v[:-1]
+            else: kw[k] = [perturb(rng, v[0])] + v[1:]
+        elif isinstance(v, list) and not v and k in ("actions",) and rng.random() < 0.7:
+            kw[k] = [{"cls": "ofp_action_output", "kw": dict(port=2)}]
+    if s.get("cls") == "ofp_packet_out" and kw.get("buffer_id") is not None: kw["data"] = ""
+    return s
+
+
 def abnormal_match(rng):
     """a match that sets fields whose protocol prerequisites are absent (the library warns and normalises)"""
     kw = {"dl_type": rng.choice([0x88cc, 0x806, 0x800, None])}
@@ -554,15 +590,22 @@ class C01(Check):
                 "actions": acts, "data": (obj.data or b"").hex()}
 
     # ------------------------------------------------------------------ implementation
-    def do_unpack(self, obj, raw, n):
+    def do_unpack(self, obj, raw, n, offset=0):
         cls = type(obj)
         k = self.kind(obj)
         if k == "message" or k == "action":
-            return cls.unpack_new(raw)
+            return cls.unpack_new(raw, offset)
         o = cls()
         if k == "stats":
-            return o.unpack(raw, 0, n), o
-        return o.unpack(raw, 0), o
+            return o.unpack(raw, offset, n), o
+        return o.unpack(raw, offset), o
+
+    def unpack_into(self, o, raw, n):
+        """`o.unpack(...)` on an object that already exists (possibly already unpacked into)"""
+        k = self.kind(o)
+        if k == "stats": return o.unpack(raw, 0, n)
+        r = o.unpack(raw, 0)
+        return r[0] if isinstance(r, tuple) else r
 
     def hdr_field(self, obj, b):
         of = self.of
@@ -580,6 +623,8 @@ class C01(Check):
         if kind == "stale": return self.impl_stale(case)
         if kind == "fm_data": return self.impl_fm_data(case)
         if kind == "reuse": return self.impl_reuse(case)
+        if kind == "seq": return self.impl_seq(case)
+        if kind == "conv": return self.impl_conv(case)
         obj = self.B.build(case["spec"])
         out = {"cls": type(obj).__name__}
         try:
@@ -683,7 +728,10 @@ class C01(Check):
     def match_state(self, m):
         st = {"wildcards": m.wildcards}
         for f in self.MATCH_FIELDS:
-            v = m.__dict__["_" + f]
+            try: v = m.__dict__["_" + f]
+            except KeyError:                      # private storage renamed: the public attribute (None when wildcarded)
+                v = getattr(m, f)
+                if isinstance(v, tuple): v = v[0]
             if isinstance(v, self.EthAddr): v = int.from_bytes(v.toRaw(), "big")
             elif isinstance(v, bytes): v = int.from_bytes(v, "big")
             elif isinstance(v, self.IPAddr): v = v.toUnsigned()
@@ -830,6 +878,11 @@ class C01(Check):
         try:
             B.refs = {}
             shared = fresh()
+            if case.get("via_unpack"):            # the shared component is one that came out of unpack()
+                for k, comp in list(shared.items()):
+                    try:
+                        b0 = comp.pack(); shared[k] = self.do_unpack(comp, b0, len(b0))[1]
+                    except Exception: pass
             steps = []
             for op in case["ops"]:
                 k = op["op"]
@@ -860,6 +913,109 @@ class C01(Check):
         for i, (what, a, b) in enumerate(obs["steps"]):
             if a != b:
                 return "pack depends on the object's history: step %d (%s) gives %s… with the re-used component, %s… with a fresh equal one" % (i, what, a[:24], b[:24])
+        return None
+
+    LISTS = ("actions", "body", "ports", "queues", "properties")
+
+    def mutate_to(self, o, s2, inplace):
+        """bring object `o` (built from another spec of the same class) to the value of spec `s2`: by assigning attributes,
+        or — `inplace` — by changing the list / sub-object it already holds (same object identity, new content)"""
+        for k, v in self.B.kwargs(s2).items():
+            cur = getattr(o, k, None)
+            if inplace and isinstance(cur, list) and isinstance(v, list):
+                cur[:] = v
+            elif inplace and isinstance(v, self.of.ofp_base) and type(cur) is type(v) and isinstance(s2["kw"][k], dict) \
+                    and type(v).__name__ != "ofp_match":
+                self.mutate_to(cur, s2["kw"][k], True)
+            else:
+                setattr(o, k, v)
+
+    def impl_seq(self, case):
+        """histories on ONE object, each step compared with a fresh object of the final value:
+           repack   : build(S1).pack(); change it into S2 (assigning / in place); pack()      == build(S2).pack()
+           reunpack : o = cls(); o.unpack(pack(S1)); o.unpack(pack(S2)); o.pack()              == pack(S2)
+           isolation: d0 = pack(S2); a = build(S1) mutated in place (lists appended to); pack(S2) again == d0"""
+        B = self.B
+        mode, s1, s2 = case["mode"], case["spec"], case["spec2"]
+        out = {"cls": s1["cls"], "steps": []}
+        def packed(f):
+            try: return f().hex()
+            except Exception as e: return "raise:%s" % type(e).__name__
+        fresh = packed(lambda: B.build(s2).pack())
+        if fresh.startswith("raise"):
+            out["pack"] = None; out["skip"] = "the final value does not pack: " + fresh; return out
+        if mode == "repack":
+            o = B.build(s1)
+            first = packed(o.pack)
+            def again():
+                self.mutate_to(o, s2, case.get("inplace", False)); return o.pack()
+            out["steps"].append(["pack after the object was changed", packed(again), fresh])
+            out["steps"].append(["len after the object was changed", packed(lambda: len(o).to_bytes(4, "big")), (len(fresh) // 2).to_bytes(4, "big").hex()])
+        elif mode == "reunpack":
+            b1 = B.build(s1).pack(); b2 = bytes.fromhex(fresh)
+            o = B.cls(s1["cls"])()
+            def twice():
+                self.unpack_into(o, b1 + TRAILER, len(b1)); self.unpack_into(o, b2 + TRAILER, len(b2)); return o.pack()
+            out["steps"].append(["pack after unpacking twice into one object", packed(twice), fresh])
+        elif mode == "isolation":
+            dflt = lambda: B.cls(s1["cls"])(**({"xid": 1} if "xid" in s1.get("kw", {}) else {})).pack()
+            d0 = packed(dflt)
+            a = B.build(s1); a.pack()
+            for k in self.LISTS:
+                cur = getattr(a, k, None)
+                if isinstance(cur, list) and cur: cur.extend(list(cur))
+            out["steps"].append(["pack of an equal object built after another instance was changed", packed(lambda: B.build(s2).pack()), fresh])
+            out["steps"].append(["pack of a default-constructed object", packed(dflt), d0])
+        out["pack"] = fresh
+        return out
+
+    def oracle_seq(self, case, obs):
+        if obs.get("pack") is None: return None
+        for i, (what, a, b) in enumerate(obs["steps"]):
+            if a != b:
+                return "result depends on the object's history: %s gives %s…, a fresh object of that value gives %s…" % (what, a[:28], b[:28])
+        return None
+
+    def impl_conv(self, case):
+        """calling conventions: unpack at a non-zero offset behind other bytes, from a bytearray; Ethernet addresses given as
+        6 raw bytes and action lists as tuples — each must give what the plain call gives"""
+        B = self.B
+        o = B.build(case["spec"])
+        out = {"cls": type(o).__name__}
+        try:
+            b = o.pack()
+        except Exception as e:
+            out["pack"] = None; out["skip"] = "raise:" + type(e).__name__; return out
+        out["pack"] = b.hex(); res = {}
+        pre = bytes(range(1, 1 + case.get("offset", 5)))
+        def rt(raw, off):
+            try:
+                r, o2 = self.do_unpack(o, raw, len(b), off)
+                return {"consumed": r - off, "eq": bool(o2 == o), "repack": o2.pack().hex() == b.hex()}
+            except Exception as e:
+                return {"raise": type(e).__name__}
+        res["offset"] = rt(pre + b + TRAILER, len(pre))
+        res["bytearray"] = rt(bytearray(b + TRAILER), 0)
+        try:
+            B.alt = True
+            res["alt_forms"] = B.build(case["spec"]).pack().hex() == b.hex()
+        except Exception as e:
+            res["alt_forms"] = "raise:" + type(e).__name__
+        finally:
+            B.alt = False
+        out["conv"] = res
+        return out
+
+    def oracle_conv(self, case, obs):
+        if obs.get("pack") is None: return None
+        n = len(obs["pack"]) // 2
+        for k in ("offset",):
+            r = obs["conv"][k]
+            if "raise" in r: return "unpack (%s) raises %s where the plain call succeeds" % (k, r["raise"])
+            if r["consumed"] != n: return "unpack (%s) consumed %s of %d bytes" % (k, r["consumed"], n)
+            if not r["eq"] or not r["repack"]: return "unpack (%s) yields a different object than the plain call" % k
+        if obs["conv"]["alt_forms"] is not True:
+            return "pack differs when Ethernet addresses are given as raw bytes / actions as a tuple (%s)" % obs["conv"]["alt_forms"]
         return None
 
     def impl_stale(self, case):
@@ -966,6 +1122,8 @@ class C01(Check):
         kind = case.get("kind", "obj")
         if kind == "fm_data": return self.oracle_fm_data(case, obs)
         if kind == "reuse": return self.oracle_reuse(case, obs)
+        if kind == "seq": return self.oracle_seq(case, obs)
+        if kind == "conv": return self.oracle_conv(case, obs)
         if kind == "stale":
             if obs.get("pack") is None: return "pack raises %s" % obs.get("outcome")
             if obs["body_on_wire"] != obs["body_set"]: return "stale body: pack() after assigning a new body still sends the old one"
@@ -1095,6 +1253,8 @@ class C01(Check):
         if "re-pack" in f: return "%s:repack:differs" % cls
         if "stale" in f: return "%s:pack:stale-body" % cls
         if f.startswith("pack depends on the object's history"): return "%s:pack:depends-on-history" % cls
+        if f.startswith("result depends on the object's history"): return "%s:%s:depends-on-history" % (cls, case.get("mode", "seq"))
+        if f.startswith("unpack (") or f.startswith("pack differs when"): return "%s:calling-convention:%s" % (cls, f.split("(")[1].split(")")[0] if f.startswith("unpack") else "alt-forms")
         if "!=" in f: return "%s:roundtrip:not-equal" % cls
         return "%s:%s" % (cls, f[:40])
 
@@ -1154,7 +1314,7 @@ class C01(Check):
                 if f[1] == "type" and cname != "ofp_error": continue      # the type code must be the one that names the class / body
                 if not isinstance(spec["kw"][f[1]], int) or isinstance(spec["kw"][f[1]], bool): continue
                 mx = (1 << (8 * f[2])) - 1
-                for v in (0, 1, mx, (mx + 1) >> 1):
+                for v in (0, 1, mx, (mx + 1) >> 1, mx >> 1):
                     if cname in ("ofp_packet_in", "ofp_flow_mod", "ofp_packet_out") and f[1] == "buffer_id" and v == mx: continue
                     s = copy.deepcopy(spec); s["kw"][f[1]] = v
                     cases.append(self.obj(s))
@@ -1241,6 +1401,32 @@ class C01(Check):
         # ofp_flow_mod carrying a packet-in as `data`
         for v in ("buffered", "unbuffered", "incomplete"):
             for _ in range(8): cases.append(g_fm_data(rng, v))
+        # histories on one object (hidden state between calls) and calling conventions, for one object of every class
+        for spec in self.all_class_specs(rng):
+            if spec["cls"] == "ofp_match": continue
+            s2 = perturb(rng, spec)
+            cases.append({"kind": "seq", "mode": "repack", "inplace": False, "spec": spec, "spec2": s2})
+            cases.append({"kind": "seq", "mode": "repack", "inplace": True, "spec": spec, "spec2": s2})
+            cases.append({"kind": "seq", "mode": "reunpack", "spec": spec, "spec2": s2})
+            cases.append({"kind": "seq", "mode": "isolation", "spec": spec, "spec2": s2})
+            cases.append({"kind": "conv", "spec": spec, "offset": rng.choice([1, 3, 8, 13])})
+        # the odd element first / in the middle / last in an action list
+        out1 = {"cls": "ofp_action_output", "kw": dict(port=1)}
+        odd = [ofgen.action(random.Random(k)) for k in range(40)]
+        seen_cls = {}
+        for a in odd + [g_action_generic(rng), g_nx_action(rng, "resubmit_table"), g_nx_action(rng, "set_tunnel64")]:
+            key = (a["cls"], a.get("kw", {}).get("type"))
+            if key in seen_cls: continue
+            seen_cls[key] = 1
+            for pos in range(3):
+                acts = [copy.deepcopy(out1), copy.deepcopy(out1)]; acts.insert(pos, copy.deepcopy(a))
+                sp = ofgen.message(rng, "flow_mod"); sp["kw"]["actions"] = acts; cases.append(self.obj(sp))
+        # match fields SET to zero (not wildcarded), prerequisites present
+        for kw0 in ({"in_port": 0}, {"dl_vlan": 0}, {"dl_vlan_pcp": 0}, {"dl_type": 0}, {"dl_type": 0x800, "nw_tos": 0}, {"dl_type": 0x800, "nw_proto": 0},
+                    {"dl_type": 0x800, "nw_proto": 6, "tp_src": 0, "tp_dst": 0}, {"dl_type": 0x800, "nw_src": ["00000000", 32], "nw_dst": ["00000000", 32]},
+                    {"dl_src": "000000000000", "dl_dst": "000000000000"}, {"dl_type": 0x806, "nw_proto": 0}):
+            for fm in (False, True):
+                cases.append({"kind": "match", "spec": {"cls": "ofp_match", "kw": kw0}, "flow_mod": fm})
         # object re-use: one match object (hashed at every position) through every order of three kinds of message
         import itertools
         for mk in ({"dl_type": 0x806, "nw_proto": 2}, {"dl_type": 0x800, "nw_proto": 47, "nw_src": ["0a000001", 32]}, {"in_port": 3},
@@ -1250,7 +1436,10 @@ class C01(Check):
                     cases.append({"kind": "reuse", "components": {"c": {"cls": "ofp_match", "kw": mk}},
                                   "ops": reuse_match_ops({"ref": "c"}, random.Random(h), order=list(order) + ["aggr_req", "flow_rep"][:h], hash_at=h)})
         for sc in ("match", "action", "port", "queue", "entry"):
-            for _ in range(12): cases.append(g_reuse(rng, sc))
+            for i in range(12):
+                c = g_reuse(rng, sc)
+                if i % 3 == 2: c["via_unpack"] = True
+                cases.append(c)
         # nx_flow_mod / nxt_packet_in with nx_match lengths 0, 5 … 40 (every residue mod 8, incl. non-zero multiples of 8)
         for total in range(0, 41):
             m = nx_match_of_length(rng, total)
@@ -1285,6 +1474,12 @@ class C01(Check):
             elif r < 0.83: yield self.obj(g_nx_message(rng))
             elif r < 0.85: yield g_fm_data(rng)
             elif r < 0.87: yield g_reuse(rng)
+            elif r < 0.90:
+                sp = ofgen.message(rng, small=True) if rng.random() < 0.7 else rng.choice(list(STRUCT_GEN.values()))(rng)
+                if sp["cls"] == "ofp_match": continue
+                m = rng.choice(["repack", "repack", "reunpack", "isolation", "conv"])
+                if m == "conv": yield {"kind": "conv", "spec": sp, "offset": rng.randint(1, 20)}
+                else: yield {"kind": "seq", "mode": m, "inplace": rng.random() < 0.5, "spec": sp, "spec2": perturb(rng, sp)}
             elif r < 0.93:
                 sp = ofgen.match(rng) if rng.random() < 0.6 else abnormal_match(rng)
                 yield {"kind": "match", "spec": sp, "flow_mod": rng.random() < 0.5}
